@@ -466,6 +466,9 @@ func runOracle(c *genCase, text string, rep *hv.Report) []oracleResult {
 	// ---- reported variables: sufficiency and expected root sets (varsoracle.go) --------------------
 	varsOracle(c, f.Body, spec, v1, d1, rep, fail)
 
+	// ---- decoding in several steps over the chain of remaining bodies (multistep.go) ---------------
+	multiStepOracle(c, f.Body, v1, d1, rep, fail)
+
 	// ---- PartialContent then Content of the rest == Content ------------------------------------------
 	for _, blk := range obs1.Blocks {
 		bd := c.Spec.block(blk.Type)
